@@ -461,11 +461,18 @@ def node_cases(seed, tier):
     bam = lambda nm, a, dst=255: [tp_rts(65240, 50, dst, 9, bam=(dst == 255)), 'P', tp_dt(50, dst, 1, list(nm.to_bytes(8, 'little'))[:7]), 'P',
                                   tp_dt(50, dst, 2, [list(nm.to_bytes(8, 'little'))[7], a]), 'P']
     cases.append('NODE mode=1 ndev=2 src=30 q=40 slots=5 t0=5000 | ' + ' ; '.join(bam(NAME0 + 1, 30) + ['T 251', 'P']))
-    cases.append('NODE mode=1 ndev=2 src=251 q=40 slots=5 t0=5000 | T 251 ; P')     # finding address-range: device 1 sits at 252
+    cases.append('NODE mode=1 ndev=2 src=251 q=40 slots=5 t0=5000 | T 251 ; P')     # repaired finding address-range: device 1 starts at 0, not 252
+    # SetMode with a source from which several devices run past 251: they get 0, 1, 2, ... (distinct); then a foreign lower NAME claims each
+    for src, ndev in ((251, 3), (250, 4), (249, 9), (251, 9), (245, 9)):
+        own = [own_addr(src, i) for i in range(ndev)]
+        ops = ['T 251', 'P']
+        for a in own[-2:]:
+            ops += [claim(a, 0), 'P']
+        cases.append('NODE mode=%d ndev=%d src=%d q=40 slots=5 t0=5000 | ' % (r.choice([1, 2]), ndev, src) + ' ; '.join(ops + ['T 251', 'P']))
     cases.append('NODE mode=1 ndev=2 src=30 q=40 slots=5 t0=5000 | ' + ' ; '.join(bam(NAME0 + 1, 77) + ['T 251', 'P'] + bam(NAME0, 251) + bam(NAME0, 255) + bam(NAME0, 252)))
     for _ in range(60 if not thorough else 1500):
-        ndev = r.choice([1, 1, 2, 3])
-        src = r.choice([0, 14, 30, 100, 249, 250, 251 - ndev + 1, 252 - ndev])
+        ndev = r.choice([1, 1, 2, 3, 4])
+        src = r.choice([0, 14, 30, 100, 249, 250, 251, 251 - ndev + 1, 252 - ndev])
         own = [own_addr(src, i) for i in range(ndev)]
         cur = list(own)
         ops = []
